@@ -20,6 +20,10 @@ V_HARNESS {
   V_ASSERT(eq(sa, st) && hash(st) == ha, "String: same characters at a different address are eq and hash the same");
   size_t n = 0; while (IN.a[n]) n++;
   V_ASSERT(ha == hash_data(IN.a, n), "String: hash is hash_data over exactly the len characters (terminator excluded)");
+#ifdef LIGHT
+  V_ASSERT(hash(Int) == hash_data("Int", 3) && hash(String) == hash_data("String", 6), "Type: hash is hash_data of the name");
+  return;
+#endif
   struct String* hs = new_raw(String, sa);
   V_ASSERT(hs->val != (char*)IN.a && eq(hs, sa) && hash(hs) == ha && len(hs) == n, "String: heap copy is eq, same hash, same len, own storage");
   struct String* as = new_raw(String);
